@@ -290,3 +290,47 @@ Proof.
   - intros Hlvl. exists r. split; [exact Hdec|].
     rewrite Hw, Hh, Hfil, <- Eu, Hunf. unfold reconstruct. cbn [fst snd]. rewrite Hlvl. reflexivity.
 Qed.
+
+(** * the hypotheses are satisfiable: a 16x16 frame with one 16x16-predicted macroblock carrying a
+    Y2 block and one luma AC level, default probabilities, normal loop filter *)
+Definition ex_hdr : frame_hdr :=
+  mkFrame 16 16 0 0 false false (mkSeg false false false zeros4 zeros4 [255; 255; 255])
+          (mkLf false 10 0 false zeros4 zeros4) 0 (mkQ 40 0 0 0 0 0) coeff_probs0 false 0.
+Definition ex_mb : mb_syn :=
+  mkMbSyn (mkMbHdr 0 false false DC_PRED [] TM_PRED) [3; -1]
+          [[[2]; []; []; []]; [[]; []; []; []]; [[]; [0; 0; -5]; []; []]; [[]; []; []; []]]
+          (empty_rows 2) [[[]; [1]]; [[]; []]].
+Definition ex_frame : frame_syn := mkFrameSyn ex_hdr false false false [[ex_mb]].
+
+Lemma probs_ok_b ps : forallb (fun bp => (0 <=? snd bp) && (snd bp <=? 255)) ps = true -> probs_ok ps.
+Proof.
+  intros H. apply Forall_forall. intros x Hx. rewrite forallb_forall in H. specialize (H x Hx).
+  apply andb_true_iff in H. destruct H as [H1 H2]. apply Z.leb_le in H1, H2. lia.
+Qed.
+
+Lemma probs_ok_bb l : forallb (forallb (fun bp => (0 <=? snd bp) && (snd bp <=? 255))) l = true -> Forall probs_ok l.
+Proof.
+  intros H. apply Forall_forall. intros ps Hps. apply probs_ok_b. rewrite forallb_forall in H. exact (H ps Hps).
+Qed.
+
+Example ex_frame_wf : wf_frame_syn rfc_quirks ex_frame /\ choices_ok (fs_rows ex_frame) /\
+  exists bs, emit_key_frame rfc_quirks ex_frame = Ok bs.
+Proof.
+  split; [|split].
+  - unfold wf_frame_syn. cbv zeta.
+    split.
+    { unfold wf_frame_hdr, ex_frame, ex_hdr. cbn [fs_hdr fs_upd_seg fs_upd_lf fh_seg fh_lf fh_log2parts fh_q fh_probs fh_skip_prob fh_skip_enabled].
+      split; [unfold wf_seg_hdr; cbn; repeat split; try lia; try reflexivity; repeat constructor; lia|].
+      split; [unfold wf_lf_hdr; cbn; repeat split; try lia; try reflexivity; repeat constructor; lia|].
+      split; [lia|]. split; [unfold wf_q_hdr; cbn; lia|]. split; [exact wf_probs_default|]. split; [lia|reflexivity]. }
+    split; [cbn; lia|]. split; [cbn; lia|]. split; [reflexivity|]. split; [reflexivity|]. split; [reflexivity|].
+    split.
+    { cbn [wf_rows_syn ex_frame fs_rows fs_hdr fs_cols]. split; [|exact I].
+      vm_compute. repeat split; try lia; try discriminate; repeat constructor; try lia; auto;
+        try (let HH := fresh in intro HH; discriminate HH). }
+    split.
+    + apply probs_ok_b. vm_compute. reflexivity.
+    + apply probs_ok_bb. vm_compute. reflexivity.
+  - constructor; [constructor; [cbn; intros Hsk; discriminate Hsk|constructor]|constructor].
+  - eexists. vm_compute. reflexivity.
+Qed.
